@@ -27,22 +27,32 @@ def convert(filename, fd_out):
     @type fd_out: file descripter
     """
     logger = logging.getLogger('pyx12')
-    wr = pyx12.x12file.X12Writer(fd_out, '~', '*', ':', '\n', '^')
     parser = et.XMLParser(encoding="utf-8")
     doc = et.parse(filename, parser=parser)
+    # The source may have used other delimiters and hold ~ * : or ^ as data: write with characters the data does not use
+    used = set()
+    for node in doc.iter():
+        if node.tag in ('ele', 'subele') and node.text and node.get('id') not in ('ISA11', 'ISA16'):
+            used.update(node.text)
+    terms = []
+    for candidates in ('~!\'$%&\x1c', '*|+@=\x1d', ':>\\<?\x1f', '^#}{\x1e'):
+        free = [c for c in candidates if c not in used and c not in terms]
+        terms.append(free[0] if free else candidates[0])
+    (seg_term, ele_term, subele_term, repetition_term) = terms
+    wr = pyx12.x12file.X12Writer(fd_out, seg_term, ele_term, subele_term, '\n', repetition_term)
     for node in doc.iter():
         if node.tag == 'seg':
-            wr.Write(get_segment(node))
+            wr.Write(get_segment(node, seg_term, ele_term, subele_term))
     return True
 
 
-def get_segment(cSegment):
+def get_segment(cSegment, seg_term='~', ele_term='*', subele_term=':'):
     """
     Build an X12 segment from a XML node
     """
     seg_id = cSegment.get('id')
     #seg_id = cSeg.findtext('data_ele')
-    seg_data = pyx12.segment.Segment(seg_id, '~', '*', ':')
+    seg_data = pyx12.segment.Segment(seg_id, seg_term, ele_term, subele_term)
     for node in cSegment.iter():
         if node.tag == 'ele':
             ele_id = node.get('id')
